@@ -57,26 +57,29 @@ type VerifScopeSnap struct {
 
 // VerifEvent is one trace event.
 type VerifEvent struct {
-	Seq     int              `json:"seq"`
-	Ev      string           `json:"ev"` // new | scope | provide | decorate | invoke.begin | invoke.end | enter | commit
-	C       int              `json:"c"`  // container
-	S       int              `json:"s"`  // scope the call was made on (provide: the scope given to)
-	Parent  int              `json:"parent,omitempty"`
-	Home    int              `json:"home,omitempty"`
-	Node    int              `json:"node,omitempty"`
-	Kind    string           `json:"kind,omitempty"` // ctor | dec | inv
-	Defer   bool             `json:"defer,omitempty"`
-	Recover bool             `json:"recover,omitempty"`
-	Dry     bool             `json:"dry,omitempty"`
-	Exp     bool             `json:"exp,omitempty"`
-	Ps      []VerifParam     `json:"ps,omitempty"`
-	Rs      []VerifResult    `json:"rs,omitempty"`
-	Err     string           `json:"err,omitempty"` // "" | invalid | dup | cycle | missing | panic | user | reject
-	Missing []VerifKeyID     `json:"missing,omitempty"`
-	Panic   bool             `json:"panicked,omitempty"` // a panic left the call
-	FlatLen []int            `json:"flatlen,omitempty"`  // commit: length of each flattened result
-	Snap    []VerifScopeSnap `json:"snap,omitempty"`
-	Text    string           `json:"text,omitempty"`
+	Seq     int           `json:"seq"`
+	Ev      string        `json:"ev"` // new | scope | provide | decorate | invoke.begin | invoke.end | enter | commit
+	C       int           `json:"c"`  // container
+	S       int           `json:"s"`  // scope the call was made on (provide: the scope given to)
+	Parent  int           `json:"parent,omitempty"`
+	Home    int           `json:"home,omitempty"`
+	Node    int           `json:"node,omitempty"`
+	Kind    string        `json:"kind,omitempty"` // ctor | dec | inv
+	Defer   bool          `json:"defer,omitempty"`
+	Recover bool          `json:"recover,omitempty"`
+	Dry     bool          `json:"dry,omitempty"`
+	Exp     bool          `json:"exp,omitempty"`
+	Ps      []VerifParam  `json:"ps,omitempty"`
+	Rs      []VerifResult `json:"rs,omitempty"`
+	Err     string        `json:"err,omitempty"` // "" | invalid | dup | cycle | missing | panic | user | reject
+	Missing []VerifKeyID  `json:"missing,omitempty"`
+	Panic   bool          `json:"panicked,omitempty"` // a panic left the call
+	FlatLen []int         `json:"flatlen,omitempty"`  // commit: length of each flattened result
+	// identity of the values: per flat parameter (enter) or flat result (commit) one token per
+	// value (several for value groups); 0 = no usable identity (not a pointer, nil, zero-size)
+	Ids  [][]uintptr      `json:"ids,omitempty"`
+	Snap []VerifScopeSnap `json:"snap,omitempty"`
+	Text string           `json:"text,omitempty"`
 }
 
 // VerifTracer, when set, receives every event. It is installed by init when
@@ -289,6 +292,104 @@ func verifSnap(root *Scope) []VerifScopeSnap {
 	return out
 }
 
+// verifIdent returns a token identifying the value by the object it points to, or 0.
+func verifIdent(v reflect.Value) uintptr {
+	for v.IsValid() && v.Kind() == reflect.Interface {
+		if v.IsNil() {
+			return 0
+		}
+		v = v.Elem()
+	}
+	if !v.IsValid() {
+		return 0
+	}
+	switch v.Kind() {
+	case reflect.Ptr:
+		if v.IsNil() || v.Type().Elem().Size() == 0 {
+			return 0
+		}
+		return v.Pointer()
+	case reflect.Map, reflect.Chan:
+		if v.IsNil() {
+			return 0
+		}
+		return v.Pointer()
+	}
+	return 0
+}
+
+func verifIdents(v reflect.Value, many bool) []uintptr {
+	if !many {
+		return []uintptr{verifIdent(v)}
+	}
+	out := []uintptr{}
+	if v.IsValid() && v.Kind() == reflect.Slice {
+		for i := 0; i < v.Len(); i++ {
+			out = append(out, verifIdent(v.Index(i)))
+		}
+	}
+	return out
+}
+
+// verifArgIds flattens the built arguments along the parameter tree.
+func verifArgIds(p param, v reflect.Value, out [][]uintptr) [][]uintptr {
+	switch x := p.(type) {
+	case paramSingle:
+		out = append(out, verifIdents(v, false))
+	case paramGroupedSlice:
+		out = append(out, verifIdents(v, true))
+	case paramObject:
+		for _, f := range x.Fields {
+			var fv reflect.Value
+			if v.IsValid() && v.Kind() == reflect.Struct && f.FieldIndex < v.NumField() {
+				fv = v.Field(f.FieldIndex)
+			}
+			out = verifArgIds(f.Param, fv, out)
+		}
+	}
+	return out
+}
+
+func verifListIds(pl paramList, args []reflect.Value) [][]uintptr {
+	var out [][]uintptr
+	for i, p := range pl.Params {
+		var v reflect.Value
+		if i < len(args) {
+			v = args[i]
+		}
+		out = verifArgIds(p, v, out)
+	}
+	return out
+}
+
+// verifResultIds flattens the returned values along the result tree.
+func verifResultIds(rl resultList, results []reflect.Value, dec bool) [][]uintptr {
+	var out [][]uintptr
+	var walk func(r result, v reflect.Value)
+	walk = func(r result, v reflect.Value) {
+		switch x := r.(type) {
+		case resultObject:
+			for _, f := range x.Fields {
+				var fv reflect.Value
+				if v.IsValid() && v.Kind() == reflect.Struct && f.FieldIndex < v.NumField() {
+					fv = v.Field(f.FieldIndex)
+				}
+				walk(f.Result, fv)
+			}
+		case resultSingle:
+			out = append(out, verifIdents(v, false))
+		case resultGrouped:
+			out = append(out, verifIdents(v, x.Flatten || dec))
+		}
+	}
+	for i, v := range results {
+		if i < len(rl.resultIndexes) && rl.resultIndexes[i] >= 0 {
+			walk(rl.Results[rl.resultIndexes[i]], v)
+		}
+	}
+	return out
+}
+
 func verifTraceNew(c *Container) {
 	if VerifTracer == nil {
 		return
@@ -368,19 +469,29 @@ func verifTraceInvoke(s *Scope, pl paramList) func(*error) {
 	}
 }
 
+func verifDryNode(n interface{}) bool {
+	switch x := n.(type) {
+	case *constructorNode:
+		return verifDry(x.s)
+	case *decoratorNode:
+		return verifDry(x.s)
+	}
+	return false
+}
+
 func verifDry(c containerStore) bool {
 	return reflect.ValueOf(c.invoker()).Pointer() != reflect.ValueOf(defaultInvoker).Pointer()
 }
 
 // verifTraceEnter: the user function of node n (nil: the invoked function) is
 // about to run with its arguments built.
-func verifTraceEnter(c containerStore, kind string, n interface{}) {
+func verifTraceEnter(c containerStore, kind string, n interface{}, pl paramList, args []reflect.Value) {
 	if VerifTracer == nil || verifDry(c) {
 		return
 	}
 	verifT.Lock()
 	defer verifT.Unlock()
-	e := VerifEvent{Ev: "enter", Kind: kind}
+	e := VerifEvent{Ev: "enter", Kind: kind, Ids: verifListIds(pl, args)}
 	switch x := n.(type) {
 	case *constructorNode:
 		e.Node, e.S, e.C = verifNodeID(x), verifScopeID(x.origS), verifScopeID(x.s.rootScope())
@@ -407,6 +518,9 @@ func verifTraceCommit(kind string, n interface{}, rl resultList, results []refle
 		e.Node, e.S, e.C = verifNodeID(x), verifScopeID(x.s), verifScopeID(x.s.rootScope())
 	}
 	e.FlatLen = verifFlatLens(rl, results)
+	if !verifDryNode(n) {
+		e.Ids = verifResultIds(rl, results, kind == "dec")
+	}
 	verifEmit(e)
 }
 
